@@ -258,6 +258,17 @@ def run_case(case, ctx):
                 st_ = it.step(op)
                 if st_ == "ok":
                     kept_after_delete(kept, D, ctx, case, i, victim)
+                if op.get("how") in ("obj-link", "obj-top"):
+                    classes.add("how:%s/%s" % (op["how"], getattr(it, "del_variant", "own")))
+                if st_ != "ok" and op.get("how") == "obj-top" and getattr(it, "del_variant", "") == "top-container":
+                    # a container that is not the direct parent may refuse the object - but then nothing changes
+                    classes.add("refused-by-top-container")
+                    dd = walk.diff(W0, walk.walk(it.f, timestamps=False))
+                    if dd:
+                        ctx.violation("C04/delete-through-top-container/refused-but-changed/%s" % victim.kind, case,
+                                      {"op": i, "status": st_, "victim": victim.path(), "path": dd[0]})
+                        break
+                    continue
                 if st_ != "ok":
                     ctx.violation("C04/delete-refused/%s/%s" % (victim.kind, op.get("how", "name")), case,
                                   {"op": i, "status": st_, "msg": str(getattr(it, "last_exc", ""))[:150],
@@ -345,7 +356,7 @@ def case_strategy():
         "op": st.just("del"),
         "k": st.sampled_from(["section", "section", "section", "array", "array", "array", "source", "source", "block",
                               "prop", "group", "frame", "tag", "mtag", "feature"]),
-        "t": ops.IDX, "how": st.sampled_from(["name", "id", "index", "neg", "obj"])})
+        "t": ops.IDX, "how": st.sampled_from(["name", "id", "index", "neg", "obj", "obj-link", "obj-top", "obj-top"])})
     unl = gen.weighted([S["unlink"], S["unlink"], S["del_meta"], S["clear_ext"]])
     reop = st.fixed_dictionaries({"op": st.just("reopen"), "mode": st.sampled_from(["a", "r"])})
     return st.fixed_dictionaries({
